@@ -224,6 +224,8 @@ def run_case(seed, i, tier):
     cr.arrival_hashes.append(tr.arrival_hash())
     cr.nontrivial_keys.append(core.derive(0, "%s|%s|%s|%s|%s" % (name, cont, a, b, core.derive(0, repr(times)) if times else "")))
     vs = mergecheck.evaluate(res, None, check_protocol=False)
+    if not vs and res.rc != 0 and "+torn" not in (pattern or ""):
+        vs.append(("exit_status_nonzero_for_a_valid_file", "exit status %s; stderr tail %r" % (res.rc, res.stderr[-200:])))
     if not vs:
         d = check(res.stdout, want)
         if d:
